@@ -508,3 +508,5 @@ CHECKS["C14"]["harnesses"].append(dict(pkg="protocol", name="C14_properties", bo
 
 _quick("C15", "C11_value", "(also under C11) a value operation carried by an ack-required lock, taken at once or granted from the wait queue: if the acknowledgement fails the register holds the value from before (a refused request leaves it unchanged) and the next holder is shown that value; if it succeeds the reply carries the value from before the operation", ["-witness", "20"], reach=["end"])
 _quick("C17", "C06_longrecycle", "(also under C06) long-expiry buckets emptied by releases and recycled: every program of 6 events, then the clock runs until every deadline is 3 s past: every hold has ended, LockedCount is back to 0 (a hold the sweep never pops is never reclaimed)", ["-witness", "50"], reach=["end"])
+
+_quick("C08", "C08_maxid", "the start of a replica-set member (Aof.LoadMaxAofId, whose failure fails ArbiterManager.Load and the start): append.aof.1 with two records and the newest file append.aof.2 (header + two records) cut at every byte 0..140: the call succeeds and reports the position of the last complete record of the log (of the older file when the newest holds none)", ["-witness", "10"], reach=["end", "newest-empty"])
